@@ -184,6 +184,8 @@ def acc_cases(seed, n, maxdim, groups, path, large_share=0.25):
             elif g == "sort":
                 op = "sort"
                 by = rnd.choice(["row", "col"])
+                if max(c, r) > 600:
+                    by = "col" if c > r else "row"          # very long shapes: short key line, long lines change places
                 nlines = r if by == "row" else c
                 line = _idx(rnd, nlines)
                 form = rnd.choice(["cmp", "key", "ord", "skey", "bkey"])
@@ -223,7 +225,47 @@ def acc_cases(seed, n, maxdim, groups, path, large_share=0.25):
             made += 1
         if "move" in groups and large_share > 0:
             made += translate_lattice(rnd, f)
+        if large_share > 0 and ({"prim", "sort", "move"} & set(groups)):
+            made += thin_lattice(rnd, f, groups)
     return made
+
+
+def thin_lattice(rnd, f, groups):
+    """Whole-line operations on very long thin shapes, deterministically: line lengths at and around the block sizes a
+    blocked loop would use (4096, 8192) and one arbitrary length, wide and tall, owned and through a window; the
+    operations that move whole lines (swap_rows / swap_cols, sorts that have to exchange the two outer lines, flips,
+    translate by half) - a random case hits such a shape with such a call once in a few hundred runs."""
+    n = 0
+    for L in [4097, rnd.choice([4095, 4096, 8193]), rnd.randint(4098, 9000)]:
+        for wide in (True, False):
+            S = rnd.choice([2, 3])
+            C, R = (L, S) if wide else (S, L)
+            windowed = rnd.random() < 0.6
+            nc, nr = (C + 2, R + 1) if windowed else (C, R)
+            stack = [{"k": "m", "s": [1, 0], "e": [C + 1, R]}] if windowed else []
+            off = 1 if windowed else 0
+            calls = []
+            if "prim" in groups:
+                calls += [("swap_rows", {"r1": 0, "r2": R - 1}), ("swap_cols", {"c1": 0, "c2": C - 1}), ("swap_rows", {"r1": R - 1, "r2": 0})]
+            if "move" in groups:
+                calls += [("flip_rows", {"z": 0}), ("flip_cols", {"z": 0}), ("translate", {"mc": C // 2, "mr": R // 2})]
+            if "sort" in groups:
+                # the key line is the SHORT one (2 - 3 keys), the lines exchanged are the long ones; long key lines are the
+                # business of the sort-line pipeline (SortTrace.tla is linear in the line, AccessTrace.tla is not)
+                calls += [("sort", {"by": "col" if wide else "row", "stable": True, "form": form, "line": 0}) for form in ("cmp", "key", "ord")]
+            for op, a in calls:
+                ids = [3 * (i + 1) for i in range(nc * nr)]
+                if op == "sort":
+                    # the key line runs downwards with ties, so that the outer lines have to change places
+                    kn = R if a["by"] == "col" else C
+                    for i in range(kn):
+                        x, y = (off, i) if a["by"] == "col" else (off + i, 0)
+                        ids[y * nc + x] = ids[y * nc + x] // 3 * 3 + (2 - (i * 3) // kn)
+                case = {"fam": "acc", "root": {"kind": "owned", "nc": nc, "nr": nr, "ids": ids}, "stack": stack,
+                        "calls": [{"op": op, "a": a, "x": None}]}
+                f.write(json.dumps(case) + "\n")
+                n += 1
+    return n
 
 
 def translate_lattice(rnd, f):
@@ -254,7 +296,7 @@ def translate_lattice(rnd, f):
 def iter_cases(seed, n, maxdim, kinds, path, large_share=0.3):
     """random call sequences on one iterator; shapes skewed towards long rows / columns"""
     rnd = random.Random(seed)
-    _BUDGET[0] = 40
+    _BUDGET[0] = 0                                     # no very long shapes here (the cell count is capped just below)
     with open(path, "w") as f:
         for _ in range(n):
             nc, nr = _shape(rnd, maxdim, large_share)
